@@ -399,7 +399,7 @@ def shard_eval(ctx, tag, items, want, per=40, workers=8):
 def run(ctx):
     ctx.proofs()
     hx = ctx.go_build("c01")
-    n = 120 if ctx.quick() else 3000
+    n = 100 if ctx.quick() else 3000
     corpus = ctx.jsonl([hx, "run"], timeout=300, input=corpus_lines())
     cases = corpus + ctx.jsonl([hx, "gen", "-seed", str(ctx.seed), "-n", str(n), "-frag", "50"], timeout=600)
     ctx.log("harness produced %d programs (%d from the hand-written corpus)" % (len(cases), len(corpus)))
@@ -420,7 +420,7 @@ def run(ctx):
         except Unsupported as ex:
             dist["untranslatable"] += 1
     want = ["ref", "compiled", "code", "vm"]
-    rows = shard_eval(ctx, "c01", items, want)
+    rows = shard_eval(ctx, "c01", items, want, per=(20 if ctx.quick() else 40), workers=(8 if ctx.quick() else 10))
     tally = {w: {} for w in want}
     bad = {w: [] for w in want}
     for (c, d), row in zip(items, rows):
